@@ -230,7 +230,7 @@ def run_shard(spec, seed, tier, active):
     acc = Acc()
     if spec.get("mode") == "fuzz":
         from .. import fuzz
-        return fuzz.run_campaign("c02", spec, seed, acc, minimise=wm.minimize_world)
+        return fuzz.run_campaign("c02", spec, seed, acc, minimise=wm.minimize_world, tier=tier)
     n = 70 if tier == "quick" else 500
     fail = hyp_search(make_one(spec, tier, acc), n, seed)
     if fail is not None:
